@@ -452,6 +452,6 @@ impl KeyValueStore {
         let cursor = MergingCursor::new(cursors)?;
         let cursor = PruningCursor::new(cursor, timestamp)?;
         let cursor = BoundsCursor::new(cursor, start_bound, end_bound)?;
-        Ok(cursor)
+        Ok(crate::tree::VersionCursor::new(cursor, version))
     }
 }
